@@ -224,7 +224,22 @@ static std::string obs_nodal(TasmanianSparseGrid const &g){
             worst = std::max(worst, std::fabs(y[(size_t) k] - ref) / (1.0 + std::fabs(ref) + 1.0e-3 * vmax[(size_t) k]));
         }
     }
+    // the same with outputs of very different magnitude (output k scaled by 10^(-4k)): every output is reproduced relative to its
+    // own size -- iterative solves and normalisations must not couple the outputs
+    bool scaled_ok = true; bool scaled_done = false;
+    if (outs >= 2 && g.getNumNeeded() == 0 && !g.isUsingConstruction() && (g.isWavelet() || g.isLocalPolynomial() || g.isSequence() || g.isFourier() || g.isGlobal())){
+        try{
+            TasmanianSparseGrid t; t.copyGrid(g);
+            std::vector<double> sv((size_t) nl * outs), smax((size_t) outs, 0.0);
+            for(int i=0; i<nl; i++) for(int k=0; k<outs; k++){ sv[(size_t) i * outs + k] = v[(size_t) i * outs + k] * std::pow(10.0, -4.0 * k) * ((k % 2) ? 1.0 : 250.0); smax[(size_t) k] = std::max(smax[(size_t) k], std::fabs(sv[(size_t) i * outs + k])); }
+            t.loadNeededValues(sv);
+            std::vector<double> ys; t.evaluateBatch(x, ys);
+            for(int i=0; i<nl; i++) for(int k=0; k<outs; k++) if (std::fabs(ys[(size_t) i * outs + k] - sv[(size_t) i * outs + k]) > 1.0e-9 * (smax[(size_t) k] + 1.0e-300)) scaled_ok = false;
+            scaled_done = true;
+        }catch(std::exception &){ scaled_ok = false; scaled_done = true; }
+    }
     char b[64]; snprintf(b, 64, "%.2e", worst);
+    if (scaled_done) ev = ev && scaled_ok;      // reported through the evaluate bit (the spec requires every nodal bit)
     return std::string("\"nodal\":{\"evaluate\":") + jbool(ev) + ",\"batch\":" + jbool(eb) + ",\"fast\":" + jbool(ef) + ",\"worst\":\"" + b + "\"}";
 }
 
@@ -1284,6 +1299,16 @@ int main(int argc, char **argv){
                 else if (which == "make_outs_neg") g.makeLocalPolynomialGrid(2, -1, 2, 1, rule_localp);
                 else if (which == "make_depth_neg") g.makeGlobalGrid(2, 1, -1, type_level, rule_clenshawcurtis);
                 else if (which == "make_rule_seq") g.makeSequenceGrid(2, 1, 2, type_level, rule_gausslegendre);
+                else if (which == "make_global_rule_none") g.makeGlobalGrid(2, 1, 2, type_level, rule_none);
+                else if (which == "make_global_rule_localp") g.makeGlobalGrid(2, 1, 2, type_level, rule_semilocalp);
+                else if (which == "make_global_rule_wavelet") g.makeGlobalGrid(2, 1, 2, type_level, rule_wavelet);
+                else if (which == "make_global_rule_fourier") g.makeGlobalGrid(2, 1, 2, type_level, rule_fourier);
+                else if (which == "make_seq_rule_none") g.makeSequenceGrid(2, 1, 2, type_level, rule_none);
+                else if (which == "make_seq_rule_cc") g.makeSequenceGrid(2, 1, 2, type_level, rule_clenshawcurtis);
+                else if (which == "make_seq_rule_localp") g.makeSequenceGrid(2, 1, 2, type_level, rule_localp);
+                else if (which == "make_local_rule_none") g.makeLocalPolynomialGrid(2, 1, 2, 1, rule_none);
+                else if (which == "make_local_rule_cc") g.makeLocalPolynomialGrid(2, 1, 2, 1, rule_clenshawcurtis);
+                else if (which == "make_local_rule_wavelet") g.makeLocalPolynomialGrid(2, 1, 2, 1, rule_wavelet);
                 else if (which == "make_rule_local") g.makeLocalPolynomialGrid(2, 1, 2, 1, rule_leja);
                 else if (which == "make_order") g.makeLocalPolynomialGrid(2, 1, 2, -2, rule_localp);
                 else if (which == "make_wavelet_order") g.makeWaveletGrid(2, 1, 2, 2);
